@@ -216,4 +216,8 @@ def run(ctx, ck):
             any(x[0] == 'attr' and x[1].endswith('min_seglen') for x in r)
     ck.ob('R-LIT.tolerance', CC + '|distance-compare', ok, f.loc(cmp_[0] if cmp_ else None),
           'ends joined when distance <= tolerance')
+    from ._endidx import check_end_index
+    ck.rule('R-COUNT.end-index', 'predicted index of the end pulses == number of pulses created before them (all end states)')
+    ncases = check_end_index(ctx, ck)
+    ck.floor('end-state cases', ncases, 30)
     ck.undecided += ['k-1 pulses for every junction of k ends (depends on runtime connection graph)']
